@@ -1,11 +1,11 @@
 package main
 
 import (
-	"sort"
 	"fmt"
 	"go/constant"
 	"go/token"
 	"go/types"
+	"sort"
 	"strings"
 
 	"golang.org/x/tools/go/ssa"
@@ -162,6 +162,11 @@ func pathOfD(v ssa.Value, d int) string {
 		if x.Op == token.MUL {
 			if t := aliasTarget(x.X); t != nil {
 				return pathOfD(t, d+1)
+			}
+			if fa, ok := x.X.(*ssa.FieldAddr); ok {
+				if t := localStructField(fa); t != nil {
+					return pathOfD(t, d+1)
+				}
 			}
 			return pathOfD(x.X, d+1)
 		}
@@ -945,6 +950,146 @@ func aliasTarget(addr ssa.Value) ssa.Value {
 	return nil
 }
 
+// localStructField resolves a load through a field of a struct built in place (tm := &state{th: th,
+// mm: newMap}; ... tm.mm ...) to the value the field was constructed with.  It applies only to fields
+// that are never written after construction anywhere in the module (immutableFields), so the load
+// yields the constructor's value on every path.
+func localStructField(fa *ssa.FieldAddr) ssa.Value {
+	if theWorld == nil {
+		return nil
+	}
+	base, ok := ptrOrigin(fa.X).(*ssa.Alloc)
+	if !ok {
+		return nil
+	}
+	if _, isStruct := derefType(base.Type()).Underlying().(*types.Struct); !isStruct {
+		return nil
+	}
+	if !immutableFields(theWorld)[structName(fa.X.Type())+"."+fieldName(fa.X.Type(), fa.Field)] && !localStructPrivate(base, fa.Field) {
+		return nil
+	}
+	var val ssa.Value
+	n := 0
+	aliases := structAliases(base)
+	if tmp := wholeInit(base); tmp != nil {
+		// v := T{...} compiled as a temporary literal copied into the variable: the literal's field stores count
+		if !localStructPrivate(tmp, fa.Field) || len(structAliases(tmp)) != 1 {
+			return nil
+		}
+		aliases = append(aliases, tmp)
+	}
+	for _, al := range aliases {
+		for _, ref := range referrers(al) {
+			f2, ok := ref.(*ssa.FieldAddr)
+			if !ok || f2.Field != fa.Field {
+				continue
+			}
+			for _, r2 := range referrers(f2) {
+				if st, ok := r2.(*ssa.Store); ok && st.Addr == ssa.Value(f2) {
+					n++
+					val = st.Val
+				}
+			}
+		}
+	}
+	if n != 1 {
+		return nil
+	}
+	return val
+}
+
+// wholeInit: the variable is written as a whole exactly once, with a copy of a literal built in a
+// temporary (v := T{...}); the temporary is returned.
+func wholeInit(base *ssa.Alloc) *ssa.Alloc {
+	var tmp *ssa.Alloc
+	n := 0
+	for _, al := range structAliases(base) {
+		for _, ref := range referrers(al) {
+			st, ok := ref.(*ssa.Store)
+			if !ok || st.Addr != al {
+				continue
+			}
+			n++
+			if ld, isLd := st.Val.(*ssa.UnOp); isLd && ld.Op == token.MUL {
+				if t, isAl := ld.X.(*ssa.Alloc); isAl && t.Comment == "complit" && al == ssa.Value(base) {
+					tmp = t
+				}
+			}
+		}
+	}
+	if n != 1 || tmp == nil {
+		return nil
+	}
+	// the temporary is read only by that copy
+	loads := 0
+	for _, ref := range referrers(tmp) {
+		if _, isLd := ref.(*ssa.UnOp); isLd {
+			loads++
+		}
+	}
+	if loads != 1 {
+		return nil
+	}
+	return tmp
+}
+
+// structAliases: the struct variable's cell and the free variables of the closures it is captured by.
+func structAliases(base *ssa.Alloc) []ssa.Value {
+	out := []ssa.Value{base}
+	for i := 0; i < len(out); i++ {
+		for _, ref := range referrers(out[i]) {
+			mc, ok := ref.(*ssa.MakeClosure)
+			if !ok {
+				continue
+			}
+			fn, _ := mc.Fn.(*ssa.Function)
+			for j, b := range mc.Bindings {
+				if b == out[i] && fn != nil && j < len(fn.FreeVars) {
+					out = append(out, fn.FreeVars[j])
+				}
+			}
+		}
+	}
+	return out
+}
+
+// localStructPrivate: a struct variable of the function (v := T{...}) whose address is used only to
+// reach its fields (in the function and its closures), and whose given field's address is used only
+// for loads and stores: every write of the field is then a visible store through one of the aliases.
+func localStructPrivate(base *ssa.Alloc, field int) bool {
+	for _, al := range structAliases(base) {
+		for _, ref := range referrers(al) {
+			switch x := ref.(type) {
+			case *ssa.FieldAddr:
+				if x.Field != field {
+					continue
+				}
+				for _, r2 := range referrers(x) {
+					switch y := r2.(type) {
+					case *ssa.UnOp, *ssa.DebugRef:
+					case *ssa.Store:
+						if y.Addr != ssa.Value(x) {
+							return false
+						}
+					default:
+						return false
+					}
+				}
+			case *ssa.UnOp, *ssa.DebugRef, *ssa.MakeClosure:
+				// a copy of the whole value, or a capture
+			case *ssa.Store:
+				if x.Addr == ssa.Value(base) && al == ssa.Value(base) && wholeInit(base) != nil {
+					continue // the one initialising copy of a literal
+				}
+				return false
+			default:
+				return false // whole-value store, the address passed on, ...
+			}
+		}
+	}
+	return true
+}
+
 // theWorld is the program being analysed (set once by main after loading).
 var theWorld *World
 
@@ -997,6 +1142,11 @@ func symRender(v ssa.Value, env *renderEnv, d int) string {
 		if x.Op == token.MUL {
 			if t := aliasTarget(x.X); t != nil {
 				return rec(t)
+			}
+			if fa, ok := x.X.(*ssa.FieldAddr); ok {
+				if t := localStructField(fa); t != nil {
+					return rec(t)
+				}
 			}
 			// a parameter spilled to the stack
 			if al, ok := x.X.(*ssa.Alloc); ok {
